@@ -2,6 +2,108 @@
 
 package mimetype
 
-func (g *vfGen) runMore12(slice string) bool { return false }
+import (
+	"fmt"
+	"strconv"
+	"strings"
 
-func vfExecMore12(f []string, op string) (string, bool) { return "", false }
+	vjson3 "github.com/gabriel-vasile/mimetype/internal/json"
+)
+
+func vfExecMore12(f []string, op string) (string, bool) {
+	switch f[0] {
+	case "hist": // hist q:hex,q:hex,...  : json.Parse calls in sequence on this goroutine (pool kept hot)
+		var pooled, isolated []string
+		for _, it := range strings.Split(f[1], ",") {
+			qh := strings.SplitN(it, ":", 2)
+			raw, _ := vfExact(vfUnhex(qh[1]))
+			p, i, t, q := vjson3.Parse(qh[0], raw)
+			pooled = append(pooled, fmt.Sprintf("%d/%d/%d/%v", p, i, t, q))
+			p2, i2, t2, q2 := vjson3.VerifParseFresh(qh[0], raw)
+			isolated = append(isolated, fmt.Sprintf("%d/%d/%d/%v", p2, i2, t2, q2))
+		}
+		return fmt.Sprintf("%s => %s %s", op, strings.Join(pooled, ","), strings.Join(isolated, ",")), true
+	case "dhist": // dhist lim hex,hex,... : Detect calls in sequence; equal inputs must give equal results
+		lim64, _ := strconv.ParseUint(f[1], 10, 32)
+		SetLimit(uint32(lim64))
+		var res []string
+		for _, h := range strings.Split(f[2], ",") {
+			in, buf := vfExact(vfUnhex(h))
+			m := Detect(in)
+			r := vfRes(m)
+			if !buf.intact() {
+				r += "!MODIFIED"
+			}
+			res = append(res, r)
+		}
+		return fmt.Sprintf("%s => %s", op, strings.Join(res, ";")), true
+	}
+	return vfExecMore13(f, op)
+}
+
+func (g *vfGen) runMore12(slice string) bool {
+	switch slice {
+	case "C04":
+		g.genC04()
+	default:
+		return g.runMore13(slice)
+	}
+	return true
+}
+
+func (g *vfGen) genC04() {
+	qs := []string{"json", "geo", "har", "gltf"}
+	// inputs designed to leave dirt in the pooled state
+	deep := strings.Repeat(`{"k":`, 200) // aborted parse with a deep path (> 128: the drop branch)
+	dirty := []string{
+		`{"type":"Feature"}`, `{"log":{"version":1}}`, `{"asset":{"version":"2.0"}}`,
+		`{"a":{"b":{"c":{"d":`, `{"a":{"b":[1,2,{"c":`, deep, `[[[[[[`, `{"log":{"x":`, `{"type":`, `{"asset":{"version":`,
+		`{}`, `[]`, `{"x":1}`, ``, `   `, `{"type":"Nope"}`, `{"a":[1],"type":"Point"}`, `garbage`, `{"k":"` + strings.Repeat("x", 300),
+	}
+	n := g.pick(400, 20000)
+	for i := 0; i < n; i++ {
+		k := 2 + g.rng.Intn(12)
+		var items []string
+		for j := 0; j < k; j++ {
+			var s string
+			if g.rng.Intn(4) == 0 {
+				s = g.jdocument()
+			} else {
+				s = dirty[g.rng.Intn(len(dirty))]
+			}
+			items = append(items, qs[g.rng.Intn(len(qs))]+":"+vfHex([]byte(s)))
+		}
+		g.emit("hist " + strings.Join(items, ","))
+	}
+	// Detect sequences: JSON family, CSV of different widths, big and tiny inputs, repeated
+	pool := [][]byte{
+		[]byte(`{"type":"Feature","x":[1,2]}`), []byte(`{"a":{"b":{"c":{"d":`), []byte(deep), []byte(`{"log":{"entries":[]}}`),
+		[]byte("a,b,c\n1,2,3\n4,5,6\n"), []byte("a,b\n1,2\n3,4\n"), []byte("a\tb\n1\t2\n"), []byte("a,b,c,d,e,f,g\n1,2,3,4,5,6,7\n1,2,3,4,5,6,7\n"),
+		[]byte("{\"a\":1}\n{\"b\":2}\n"), g.textBytes(6000), g.bytes(5000), {}, []byte("<html><meta charset=latin1>"), []byte("PK\x03\x04"),
+		[]byte(`{"asset":{"version":"2.0"}}`), []byte("\"q,u\"\"o\",x\n1,2\n3,4\n"),
+	}
+	for _, c := range vfCorpus() {
+		if len(c) <= 8192 {
+			pool = append(pool, c)
+		}
+	}
+	for i := 0; i < g.pick(300, 10000); i++ {
+		k := 4 + g.rng.Intn(16)
+		var items []string
+		for j := 0; j < k; j++ {
+			items = append(items, vfHex(pool[g.rng.Intn(len(pool))]))
+		}
+		g.emit(fmt.Sprintf("dhist %d %s", []int{0, 3072, 16, 64}[g.rng.Intn(4)], strings.Join(items, ",")))
+	}
+	// inputs that differ only beyond the limit
+	for i := 0; i < g.pick(200, 5000); i++ {
+		base := pool[g.rng.Intn(len(pool))]
+		if len(base) < 4 {
+			continue
+		}
+		l := 1 + g.rng.Intn(len(base))
+		a := append(append([]byte{}, base[:l]...), g.bytes(20)...)
+		b := append(append([]byte{}, base[:l]...), g.textBytes(30)...)
+		g.emit(fmt.Sprintf("dhist %d %s,%s,%s", l, vfHex(a), vfHex(b), vfHex(base[:l])))
+	}
+}
